@@ -137,4 +137,23 @@ TEXT.update({
         note="Trusted: Lean kernel + 3 standard axioms; fairness; sync.Once/close-channel semantics modelled; the goroutine dump (500 ms grace) is the correspondence observation, not the proof.",
         technique="Lean 4 proof (model lemmas + ranking-function leadsTo for goroutine exit) + regenerated Close-path facts + shutdown differential with goroutine dumps"),
 })
+TEXT.update({
+    "C09": dict(
+        text="Lean theorems for every reachable state of the Exclusive transition system of one key (unbounded calls and items, every interleaving of attach, wake-up, "
+             "swap, start of work, resolve, return and successor clearing): at most one call is between 'set running' and 'cleared the successor', so two work functions never "
+             "overlap; a work function can start only when every other call is parked, unmade or finished, i.e. after the previous runner passed clearNext, which follows the "
+             "RETURN of its work function; calls parked on the successor stay parked until then even if the result is already resolved. Keys: the multi-key system is the product "
+             "of per-key systems; steps of different keys commute and neither enable nor disable each other. T1 facts over the regenerated CFG: the map mutex is never held across "
+             "a blocking node, the successor is installed before the work function is called, its flag is cleared only after the call returned. Tied by concurrent trace acceptance.",
+        note="Trusted: Lean kernel + 3 standard axioms; mutex/cond semantics and the product-of-keys structure are modelled (supported by T1 facts and two-key runs); tie = regenerated CFG facts + acceptance of this run's event logs.",
+        technique="Lean 4 proof (9-clause inductive invariant over an LTS with unbounded calls/items) + decide over regenerated CFG + concurrent trace acceptance"),
+    "C10": dict(
+        text="Lean theorems for every reachable state of the same system with ghost clock: an item a call attached to can only start after the call (attachClock < startClock), "
+             "an outcome held by a call is the write-once result of its item, produced by an execution that began after the call; finished non-start calls hold exactly one "
+             "outcome that never changes; coalesced calls hold identical outcomes; the executed function was supplied by a call of that batch; a work function returning "
+             "unresolved yields the resolve-not-called outcome; executions <= calls (sum argument over items); at quiescence the key is not in the map; while any call is "
+             "unanswered a state-changing step is enabled (no deadlock). Tied by concurrent trace acceptance of hook events, executed-function identity and received outcomes.",
+        note="Trusted: Lean kernel + 3 standard axioms; mutex/cond/once semantics modelled; liveness only as deadlock freedom (no leadsTo theorem); tie = acceptance of this run's event logs + CFG facts.",
+        technique="Lean 4 proof (six invariant groups over an LTS with unbounded calls/items, ghost clock and counters) + concurrent trace acceptance"),
+})
 NOT_YET = {}
